@@ -84,9 +84,10 @@ def analytic_scores(animals_g, edges, paf_sigma, n_points=10):
     return own_min, cross_max
 
 
-def gen_plan(rng, index, tier):
+def gen_plan(rng, index, tier, opts=None):
+    tiny = bool(opts and opts.get("tiny"))  # used by C12: tiny PAF grids, long edges (distance penalty active), big batches
     for _attempt in range(300):
-        n_nodes = rng.choice([2, 3, 4, 5, 6])
+        n_nodes = 2 if tiny else rng.choice([2, 3, 4, 5, 6])
         perm = list(range(n_nodes))
         rng.shuffle(perm)
         edges = []
@@ -94,8 +95,8 @@ def gen_plan(rng, index, tier):
             a, b = perm[rng.randrange(0, j)], perm[j]
             edges.append([a, b])
         rng.shuffle(edges)
-        H, W = rng.randint(72, 176), rng.randint(72, 176)
-        r = rng.random()
+        H, W = (rng.randint(40, 56), rng.randint(40, 56)) if tiny else (rng.randint(72, 176), rng.randint(72, 176))
+        r = 0.0 if tiny else rng.random()
         if r < 0.5:
             mh = mw = None
         elif r < 0.75:
@@ -107,6 +108,8 @@ def gen_plan(rng, index, tier):
         cs = rng.choice([s for s in (1, 2, 4, 8) if s <= ms] or [1])
         ps = rng.choice([s for s in (1, 2, 4, 8) if s <= ms] or [1])
         scale = rng.choice([0.5, 0.75, 1.0, 1.0, 1.25])
+        if tiny:
+            ms, ps, cs, scale = 8, 8, rng.choice([1, 2]), 1.0
         g = scale * e
         sigma_cm = 1.5
         # worst perpendicular offset of a sampled PAF cell from the true edge: peak quantisation (cs/sqrt2) + nearest-cell lookup (ps/sqrt2);
@@ -118,7 +121,9 @@ def gen_plan(rng, index, tier):
             continue
         node_min = max(5.0, 1.5 * ps, 2.0 * cs)
         ext_g = min(0.09 * max(Hg, Wg), 4.0 * node_min)  # half extent of a body, given px -> edges < 0.2*max dim
-        if ext_g < node_min:
+        if tiny:
+            node_min, ext_g, margin_g = 14.0, 0.33 * min(Hg, Wg), 3.0 * cs + 2.0  # edges longer than 0.25 * grid side * stride
+        if ext_g < node_min and not tiny:
             continue
         peak_sep = 5.0 * sigma_cm * cs + 2.0
         n_frames = rng.randint(1, 3)
@@ -126,7 +131,7 @@ def gen_plan(rng, index, tier):
         ok = True
         for k in range(n_frames):
             animals_g = []
-            for a in range(rng.randint(1, 5)):
+            for a in range(1 if tiny else rng.randint(1, 5)):
                 for _t in range(40):
                     cx, cy = rng.uniform(margin_g + ext_g, Wg - 1 - margin_g - ext_g), rng.uniform(margin_g + ext_g, Hg - 1 - margin_g - ext_g)
                     pts = []
